@@ -242,6 +242,24 @@ func runShardChild(a childArgs) error {
 			nsteps = 6
 		}
 	}
+	// In every second history of the durability / graph profiles the vector indexes are searched BEFORE anything is
+	// written (not judged: the collection is empty): the shared caches of the indexes are then created by a read
+	// transaction and the first write goes through them.
+	if (a.profile == "c08" || a.profile == "c03" || a.profile == "c04") && a.idx%2 == 0 && a.killStep < 0 {
+		for _, ix := range g.schema {
+			var q querySpec
+			switch ix.kind {
+			case ixFlat:
+				q = querySpec{kind: "flat", prop: ix.path, vec: make([]float32, ix.dim), limit: 3}
+			case ixVamana:
+				q = querySpec{kind: "vamana", prop: ix.path, vec: make([]float32, ix.dim), search: 30, limit: 3}
+			default:
+				continue
+			}
+			q.vec[0] = 1
+			env.sh.SearchPoints(requestSpec{q: q}.model())
+		}
+	}
 	for step := 0; step < nsteps; step++ {
 		b := g.genBatch(step)
 		if a.killStep == step {
